@@ -40,13 +40,23 @@ def famWalk (H : HashFn) (kv : KV) : String × String :=
       let base := s!"open=ok roots={cidsStr br.roots} visits={visitsStr r.1} end={r.2.1}"
       if cnt then
         let c := r.2.2.consumed
-        base ++ s!" consumed={c}" ++ (if ver == 2 then s!" over={if c > 51 + dp + (payload roots blocks).length then 1 else 0}" else "")
+        -- the byte count is modelled for walks that end cleanly; after a failure only the bound matters
+        base ++ (if r.2.1 == "eof" then s!" consumed={c}" else "") ++ (if ver == 2 then s!" over={if c > 51 + dp + (payload roots blocks).length then 1 else 0}" else "")
       else base
   -- specification: the visits the theorem predicts from the block list, clean EOF right after the last block
   let choice : Nat → Bool := fun i => ch.getD i 'n' == 's'
   let base := if ver == 2 then 51 + dp else 0
   let exp := expectedVisits choice base 0 (headerSize ⟨roots, 1⟩) blocks
-  let s := s!"open=ok roots={cidsStr (roots.getD [])} visits={visitsStr exp} end=eof" ++ (if cnt ∧ ver == 2 then " over=0" else "")
+  -- (a section limit below some section's size makes the archive unreadable for this reader: then only the
+  -- bound on consumption is demanded, and that Next and SkipNext agree is the model's business)
+  let tooBig := blocks.any fun b => b.cid.byteLen + b.data.length > o.maxSection
+  let fits := blocks.takeWhile fun b => b.cid.byteLen + b.data.length ≤ o.maxSection
+  let s := if tooBig then
+      -- every call — Next or SkipNext alike — visits the sections before the first over-limit one and is
+      -- then refused with the too-large error
+      s!"open=ok roots={cidsStr (roots.getD [])} visits={visitsStr (expectedVisits choice base 0 (headerSize ⟨roots, 1⟩) fits)} end=toolarge" ++
+        (if cnt ∧ ver == 2 then " over=0" else "")
+    else s!"open=ok roots={cidsStr (roots.getD [])} visits={visitsStr exp} end=eof" ++ (if cnt ∧ ver == 2 then " over=0" else "")
   (m, s)
 
 end Car.Driver
